@@ -151,7 +151,8 @@ def check_n2(ctx) -> None:
             in_body_after = any(st is s for s in tr.body) and st.lineno > call.lineno
             ctx.check(in_body_after, 'N2', '__main__/rc-zero-only-after-main', f'{mm.rel}:{st.lineno}',
                       '`rc = 0` is not placed in the try body after geophires.main() returns')
-        ctx.check(any(norm(c) == 'sys.exit(rc)' for c in exits), 'N2', '__main__/exits-with-rc', where,
+        raises_rc = [r for r in ast.walk(mm.tree) if isinstance(r, ast.Raise) and r.exc is not None and norm(r.exc) in ('SystemExit(rc)',)]
+        ctx.check(any(norm(c) in ('sys.exit(rc)', 'exit(rc)', 'os._exit(rc)') for c in exits) or bool(raises_rc), 'N2', '__main__/exits-with-rc', where,
                   'the module does not end with sys.exit(rc)')
         for h in tr.handlers:
             for st in ast.walk(h):
